@@ -72,13 +72,12 @@ func NewAsyncProducer(t ErrorReporter, config *sarama.Config) *AsyncProducer {
 				} else {
 					msg.Partition = partition
 					if expectation.CheckFunction != nil {
-						err := expectation.CheckFunction(msg)
-						if err != nil {
-							mp.t.Errorf("Check function returned an error: %s", err.Error())
-							mp.errors <- &sarama.ProducerError{Err: err, Msg: msg}
-						}
+						err = expectation.CheckFunction(msg)
 					}
-					if expectation.Result == errProduceSuccess {
+					if err != nil {
+						mp.t.Errorf("Check function returned an error: %s", err.Error())
+						mp.errors <- &sarama.ProducerError{Err: err, Msg: msg}
+					} else if expectation.Result == errProduceSuccess {
 						mp.lastOffset++
 						if config.Producer.Return.Successes {
 							msg.Offset = mp.lastOffset
